@@ -470,11 +470,12 @@ func (c *verifC20Client) Get(ctx context.Context, key client.ObjectKey, obj clie
 		with := &apiextensionsv1.CustomResourceSubresources{Status: &apiextensionsv1.CustomResourceSubresourceStatus{}}
 		switch c.crd {
 		case verifC20CRDStatus:
-			o.Spec.Versions = []apiextensionsv1.CustomResourceDefinitionVersion{{Name: "v1beta1"}, {Name: "v1", Subresources: with}}
+			o.Spec.Versions = []apiextensionsv1.CustomResourceDefinitionVersion{{Name: "v1beta1", Served: true}, {Name: "v1", Served: true, Storage: true, Subresources: with}}
 		case verifC20CRDNoSubresources:
-			o.Spec.Versions = []apiextensionsv1.CustomResourceDefinitionVersion{{Name: "v1"}}
+			o.Spec.Versions = []apiextensionsv1.CustomResourceDefinitionVersion{{Name: "v1", Served: true, Storage: true}}
 		case verifC20CRDOtherVersionOnly:
-			o.Spec.Versions = []apiextensionsv1.CustomResourceDefinitionVersion{{Name: "v1beta1", Subresources: with}, {Name: "v1", Subresources: &apiextensionsv1.CustomResourceSubresources{}}}
+			// both versions are served; only the one the controller does NOT use has the status subresource
+			o.Spec.Versions = []apiextensionsv1.CustomResourceDefinitionVersion{{Name: "v1beta1", Served: true, Subresources: with}, {Name: "v1", Served: true, Storage: true, Subresources: &apiextensionsv1.CustomResourceSubresources{}}}
 		}
 		return nil
 	}
@@ -608,7 +609,8 @@ func VerifC20_Reconcile() {
 			if full {
 				args[i] = 1 + rt.Choice("crd-defect", 3)
 			} else {
-				args[i] = verifC20CRDNoSubresources
+				// no subresources at all / only ANOTHER served version has the status subresource
+				args[i] = 1 + rt.Choice("crd-defect", 2)
 			}
 		}
 	}
